@@ -477,6 +477,7 @@ type LoopSpec struct {
 	Hint       string
 	Invariants []*Clause
 	Iter       []*Clause // "iter ensures": per-iteration postconditions (old = loop head)
+	Step       []*Clause // "step ensures": like iter, and also checked where the function returns from inside the loop body
 	SelectOnly bool      // "blocks only in select": no receive statement outside the comm clauses of the loop's selects
 	Offers     []string  // "offers <-expr": every select of the loop has a comm clause receiving from exactly this channel expression
 	Cancels    string    // "cancels ctx": the loop is a goroutine's message loop that must stop when ctx is cancelled
@@ -582,7 +583,7 @@ type SpecFile struct {
 
 var clauseKeywords = map[string]bool{
 	"requires": true, "assumes": true, "ensures": true, "modifies": true, "invariant": true, "loop": true,
-	"iter": true, "exit": true, "cancels": true, "blocks": true, "closureinv": true, "decreases": true, "emits": true, "recvinv": true, "flag": true, "use": true, "prop": true, "induction": true, "pattern": true, "defensive": true, "assert": true, "offers": true,
+	"iter": true, "step": true, "exit": true, "cancels": true, "blocks": true, "closureinv": true, "decreases": true, "emits": true, "recvinv": true, "flag": true, "use": true, "prop": true, "induction": true, "pattern": true, "defensive": true, "assert": true, "offers": true,
 	"field": true, "assumed": true, "pure": true, "end": true,
 }
 var headerKeywords = map[string]bool{"func": true, "type": true, "spec": true, "lemma": true, "ghost": true, "axiom": true, "package": true}
@@ -811,6 +812,18 @@ func parseSpecText(path, pkgPath string, lines []string, lineNos []int) (*SpecFi
 				return nil, err
 			}
 			curLoop.Iter = append(curLoop.Iter, c)
+		case "step":
+			// step ensures [name] expr: a per-turn postcondition (old = loop head) that holds at every back edge and also
+			// at every return from inside the loop body - a turn that leaves the function early is still a turn
+			if curLoop == nil {
+				return nil, fmt.Errorf("%s:%d: step outside loop", path, it.line)
+			}
+			r := strings.TrimSpace(strings.TrimPrefix(rest, "ensures"))
+			c, err := mkClause("step", r, it.line)
+			if err != nil {
+				return nil, err
+			}
+			curLoop.Step = append(curLoop.Step, c)
 		case "assert":
 			// assert before "<statement text prefix>" [name] <expr>
 			if curF == nil {
